@@ -3,13 +3,14 @@ mod dump;
 mod exec;
 mod gen;
 mod props;
+mod seeds;
 mod tables;
 mod tap;
 
 use std::io::Write;
 
 fn usage() -> ! {
-    eprintln!("usage: mtharness tables | gen <prop> <tier> <seed> <out> | exec <sessions> <log> | meta <prop> <tier> <seed> <out>");
+    eprintln!("usage: mtharness tables | gen <prop> <tier> <seed> <out> | exec <sessions> <log> | meta <prop> <tier> <seed> <out> | seeds <sessions> <outdir> [max]");
     std::process::exit(2)
 }
 
@@ -63,6 +64,31 @@ fn main() {
                 }
             }
             let _ = std::fs::remove_file(&cur);
+        }
+        "seeds" => {
+            // seeds <sessions> <outdir> [max]: the sessions as inputs of the coverage-guided search
+            if a.len() < 4 {
+                usage();
+            }
+            let text = std::fs::read_to_string(&a[2]).unwrap();
+            let sessions = exec::Session::parse_all(&text).unwrap_or_default();
+            let max: usize = a.get(4).and_then(|x| x.parse().ok()).unwrap_or(usize::MAX);
+            std::fs::create_dir_all(&a[3]).unwrap();
+            let mut n = 0usize;
+            let mut seen = std::collections::HashSet::new();
+            'outer: for s in &sessions {
+                for b in seeds::seeds_of(s) {
+                    if !seen.insert(b.clone()) {
+                        continue;
+                    }
+                    std::fs::write(format!("{}/s{:06}", a[3], n), &b).unwrap();
+                    n += 1;
+                    if n >= max {
+                        break 'outer;
+                    }
+                }
+            }
+            eprintln!("{}", n);
         }
         "meta" => {
             if a.len() < 6 {
